@@ -64,7 +64,7 @@ def _pa(prog: Program, f: Func) -> PathAnalysis:
     return _PA[k]
 
 
-LATER_RULES = ' Later rules: evaluator membership by primitives, not by name; (R15.8) no memo keyed by evaluated values; (R15.9) no evaluated set reaches a call that can see its order. (R15.10) a false comprehension condition kills the whole comprehension, and only when nothing with an effect or of unknown value is evaluated before it. (R15.11) dead code is removed only after it was searched for yield. R15.4 (later form): the handler of the signal yields no rewrite at all, effect-free or not.'
+LATER_RULES = ' Later rules: evaluator membership by primitives, not by name; (R15.8) no memo keyed by evaluated values; (R15.9) no evaluated set reaches a call that can see its order. (R15.10) a false comprehension condition kills the whole comprehension, and only when nothing with an effect or of unknown value is evaluated before it. (R15.11) dead code is removed only after it was searched for yield. (R15.12) every primitive application of the evaluator is fenced by a cost predicate over its operands. R15.4 (later form): the handler of the signal yields no rewrite at all, effect-free or not.'
 
 
 def check(prog: Program, tier: str) -> Result:
@@ -100,8 +100,9 @@ def check(prog: Program, tier: str) -> Result:
     _r15_9(prog, res, ev)
     _r15_10(prog, res, ev)
     _r15_11(prog, res, ev)
+    _r15_12(prog, res, ev)
     _r15_7(prog, res, ev)
-    res.floors.update({"R15.1": 23, "R15.2": 18, "R15.3": 2, "R15.4": 10, "R15.5": 2, "R15.6": 2, "R15.9": 2, "R15.10": 5, "R15.11": 8})
+    res.floors.update({"R15.1": 23, "R15.2": 18, "R15.3": 2, "R15.4": 10, "R15.5": 2, "R15.6": 2, "R15.9": 2, "R15.10": 5, "R15.11": 8, "R15.12": 3})
     res.analysed.update({"evaluator_functions": [f.fq for f in ev.members], "external_call_sites": len(ev.call_sites())})
     return res
 
@@ -271,6 +272,66 @@ def _r15_11(prog: Program, res: Result, ev: Evaluator) -> None:
                        "dead code is removed without looking for a `yield` in it: `if False: yield` / `return; yield` make the function a generator, "
                        "without them it is a plain function (calling it runs the body, iterating the result fails)")
     res.analysed["decided_test_consumers"] = n
+
+
+
+# ------------------------------------------------------------------------------------------------ R15.12
+def _cost_predicates(prog: Program) -> Dict[Tuple[str, str], Func]:
+    """Functions of core that answer `is this too large to compute`: they measure their arguments (`.bit_length()` / `len(..)`) and
+    compare with a constant bound."""
+    out = {}
+    for f in prog.funcs.values():
+        if f.mod.name != "core":
+            continue
+        text = norm(f.node)
+        measures = ".bit_length()" in text or "len(" in text
+        bound = any(isinstance(c, ast.Compare) and isinstance(c.ops[0], (ast.Gt, ast.GtE, ast.Lt, ast.LtE)) for c in ast.walk(f.node))
+        limit = any(isinstance(k, ast.Constant) and isinstance(k.value, int) and k.value >= 100 for k in ast.walk(f.node))
+        if measures and bound and limit and f.node.returns is not None and norm(f.node.returns) == "bool":
+            out[f.key] = f
+    return out
+
+
+def _r15_12(prog: Program, res: Result, ev: Evaluator) -> None:
+    """The evaluator COMPUTES: it applies Python's operators, builtins and methods to evaluated values inside the formatter.
+    `9 ** 9 ** 9`, `sum(range(10 ** 10))`, `'a'.ljust(10 ** 10)` cost hours or gigabytes - for an expression the program
+    may never reach (`if x or 9 ** 9 ** 9`).  A time bound is no static fact, the fence is: every primitive application
+    (operator-table call, builtin by name, method of a constant) is reached only under the negative answer of a cost
+    predicate over its operands - except where the node is a comparison (cost bounded by the operands, which were
+    computed under the fence)."""
+    from ..pathcond import plain
+    preds = _cost_predicates(prog)
+    n = 0
+    for f in ev.members:
+        pa = None
+        for c in prog.calls_in(f):
+            kind = ev.primitive_kind(c, f)
+            if not kind:
+                continue
+            n += 1
+            if "literal_eval" in kind:
+                res.ok("R15.12", f.loc(c), f.fq, f"{short(c, 60)} # {kind}", "builds the value of a literal display: linear in the text of the literal", trivial=True)
+                continue
+            pa = pa or PathAnalysis(prog, f)
+            worlds = pa.worlds_at(c)
+            if not worlds:
+                continue
+            def fenced(w) -> Optional[str]:
+                for fct in w.facts:
+                    if fct[0] == "lit" and not fct[2]:
+                        name = plain(fct[1]).split("(", 1)[0]
+                        if ("core", name) in preds:
+                            return name
+                return None
+            def comparison(w) -> bool:
+                return any(fct[0] == "lit" and fct[2] and "match_template(" in plain(fct[1]) and "ast.Compare(" in plain(fct[1]) for fct in w.facts)
+            verdicts = [fenced(w) or ("comparison" if comparison(w) else None) for w in worlds]
+            ok = all(verdicts)
+            res.decide(ok, "R15.12", f.loc(c), f.fq, f"{short(c, 60)} # {kind} applied to evaluated values",
+                       f"only under {sorted(set(verdicts))}" if ok else
+                       "a Python operation is applied to evaluated values without a bound on its cost: `9 ** 9 ** 9`, `sum(range(10 ** 10))`, `'a'.ljust(10 ** 10)` are "
+                       "computed while formatting (hours, gigabytes), also for an operand the program never reaches")
+    res.analysed["primitive_applications"] = n
 
 
 
@@ -678,6 +739,9 @@ def _r15_6(prog: Program, res: Result, ev: Evaluator) -> None:
 from ..selftest import Variant  # noqa: E402
 
 VARIANTS = [
+    Variant("operators-applied-without-cost-bound", "FIRE", "core", "        if _is_too_large_to_compute(node.op, left, right):\n            raise ValueError(\"The value is too large to be computed while formatting\")\n", "", "R15.12"),
+    Variant("builtins-called-without-cost-bound", "FIRE", "core", "            if _is_too_costly_to_call(node.func.id, args, is_method=False):\n                raise ValueError(\"The value is too large to be computed while formatting\")\n", "", "R15.12"),
+    Variant("cost-bound-asked-after-the-computation", "FIRE", "core", "        if _is_too_costly_to_call(node.func.attr, args, is_method=True):\n            raise ValueError(\"The value is too large to be computed while formatting\")\n        return getattr(node_value, node.func.attr)(*args)\n", "        result = getattr(node_value, node.func.attr)(*args)\n        if _is_too_costly_to_call(node.func.attr, args, is_method=True):\n            raise ValueError(\"The value is too large to be computed while formatting\")\n        return result\n", "R15.12"),
     Variant("set-order-revealed-to-builtins", "FIRE", "core",
             "            if _reveals_set_order(node.func.id, args):\n                raise ValueError(\"The order of a set is not the same in every process\")\n", "", "R15.9"),
     Variant("set-order-test-inline", "SILENT", "core",
